@@ -193,6 +193,14 @@ def build(case):
                 G.add_node(10 * v)
             for (u, v) in a[1]:
                 G.add_edge(10 * v, 10 * u)
+        elif case.get('grown') is not None:
+            # a graph object with a history: created with `grown` vertices,
+            # all the others added by ONE update_vertex_number call
+            from cnfgen.graphs import Graph
+            G = Graph(min(case['grown'], a[0]))
+            G.update_vertex_number(a[0])
+            for (u, v) in a[1]:
+                G.add_edge(u, v)
         else:
             G = scope.mk_graph(a[0], a[1])
         return cnfgen.PerfectMatchingPrinciple(G, formula_class=fc)
@@ -630,6 +638,8 @@ def cases(tier, seed):
                 cs.append({'fam': 'matching', 'args': [n, list(es)], 'cls': cls})
                 if n <= 4 and cls == 'CNF':
                     cs.append({'fam': 'matching', 'args': [n, list(es)], 'cls': cls, 'nx': 'reverse'})
+                if n >= 2 and cls == 'CNF':
+                    cs.append({'fam': 'matching', 'args': [n, list(es)], 'cls': cls, 'grown': len(es) % 2})
         for n in range(0, 5):
             for k in range(0, 4):
                 for c in range(0, 4):
